@@ -638,16 +638,16 @@ func init() {
 						if fn.Name() != "Select" && fn.Name() != "Find" && fn.Name() != "FindInt32" {
 							continue
 						}
-						for _, b := range fn.Blocks {
-							ret, ok := b.Instrs[len(b.Instrs)-1].(*ssa.Return)
-							if !ok || b == fn.Recover {
+						for _, rp := range returnPaths(fn) {
+							ret, b := rp.ret, rp.from
+							if ret.Block() == fn.Recover {
 								continue
 							}
 							var failing bool
 							if idx := errorIndex(fn.Signature); idx >= 0 {
-								failing = definitelyNonNilErr(ret.Results[idx], b)
-							} else if len(ret.Results) == 2 {
-								if v, isC := constBool(resolveSpill(ret.Results[1])); isC && !v {
+								failing = definitelyNonNilErr(rp.vals[idx], b)
+							} else if len(rp.vals) == 2 {
+								if v, isC := constBool(resolveSpill(rp.vals[1])); isC && !v {
 									failing = true
 								}
 							}
@@ -655,17 +655,23 @@ func init() {
 								continue
 							}
 							empty := false
-							for _, f := range facts(b) {
+							for _, f := range rp.pathFacts() {
 								c, okc := normFact(f)
 								if !okc {
 									continue
 								}
-								if k, isK := constInt(c.Y); isK && k == 0 && c.Op == token.EQL && strings.HasPrefix(pathOf(c.X), "len(") {
-									empty = true
+								// some comparison confines a len(...) to exactly 0 on this path
+								for _, side := range []ssa.Value{c.X, c.Y} {
+									core, _ := affineOf(side)
+									if isLenLike(core) {
+										if rp.pathSet(valueSets(fn, core, nil), trackValue(core)).intersect(rng(0, posInf)).equal(rng(0, 0)) {
+											empty = true
+										}
+									}
 								}
 								// delegated lookup said "not found"
 								if ex, isEx := c.X.(*ssa.Extract); isEx {
-									if call, isCall := ex.Tuple.(*ssa.Call); isCall && call.Call.StaticCallee() != nil && namedOf(call.Call.StaticCallee().Signature.Recv().Type()) == nt {
+									if call, isCall := ex.Tuple.(*ssa.Call); isCall && call.Call.StaticCallee() != nil && call.Call.StaticCallee().Signature.Recv() != nil && namedOf(call.Call.StaticCallee().Signature.Recv().Type()) == nt {
 										if c.boolIs(c.X, false) {
 											empty = true
 										}
